@@ -3,7 +3,7 @@
     yields the empty string) and 5e2d7b7 (the output is spliced as text, not as a replacement template). *)
 From Coq Require Import List NArith ZArith.
 From Cicada Require Import Base.Chars Base.Tag Model.Expand Model.ExpandRef Model.SubstVariant
-  Proofs.ExpandBasics Proofs.SubstProofs Proofs.SubstWitness Proofs.SubstVariantProofs Proofs.ExpandInert Proofs.SubstOrder.
+  Proofs.ExpandBasics Proofs.SubstProofs Proofs.SubstWitness Proofs.SubstVariantProofs Proofs.ExpandInert Proofs.SubstOrder Model.SubstVariant2 Proofs.SubstVariant2Proofs.
 From Cicada Require Model.Tokenizer.
 Import ListNotations.
 Local Open Scope N_scope.
@@ -132,6 +132,24 @@ Theorem C11_variant_dq : forall W head cmd tail f,
   = Ok (Some (head ++ strip_nl (oracle_out W cmd) ++ tail), [cmd]).
 Proof. exact dollar_loop_v_dq. Qed.
 
+(** About two more PROPOSED repairs (Model/SubstVariant2.v; notes/C11-fix-4.patch, notes/C11-fix-5.patch).
+    fix-4: an embedded backquote command that does not plan yields the empty string -- no stale output. *)
+Theorem C11_variant_backquote : forall W h1 c1 h2 c2 t f,
+  ~ In 96 h1 -> ~ In 96 c1 -> c1 <> [] -> ~ In 96 h2 -> ~ In 10 h2 -> ~ In 96 c2 -> c2 <> [] -> ~ In 10 c2 -> ~ In 96 t -> ~ In 10 t ->
+  dot_loop_v (S (S (S f))) W (h1 ++ 96 :: c1 ++ 96 :: h2 ++ 96 :: c2 ++ 96 :: t) [] []
+  = Ok (h1 ++ trim (out_of W c1) ++ h2 ++ trim (out_of W c2) ++ t, [c1; c2]).
+Proof. exact dot_loop_v_two. Qed.
+(** fix-5 (balanced-parenthesis scan): two substitutions in one word are two runs, spliced in place. *)
+Theorem C11_two_substitutions : forall W (pre a mid b post : str) f,
+  ~ In 36 pre -> ~ In 36 mid -> a <> [] -> b <> [] -> ~ In 40 a -> ~ In 41 a -> ~ In 40 b -> ~ In 41 b ->
+  ~ In 36 (trim (out_of W a)) ->
+  ((~ In 61 (pre ++ 36 :: 40 :: a ++ 41 :: mid ++ 36 :: 40 :: b ++ 41 :: post) /\ ~ In 61 (trim (out_of W a))) \/
+   (~ In 39 (pre ++ 36 :: 40 :: a ++ 41 :: mid ++ 36 :: 40 :: b ++ 41 :: post) /\ ~ In 39 (trim (out_of W a)))) ->
+  has_dollar_paren (pre ++ trim (out_of W a) ++ mid ++ trim (out_of W b) ++ post) = false ->
+  dollar_loop_b (S (S (S f))) W (pre ++ 36 :: 40 :: a ++ 41 :: mid ++ 36 :: 40 :: b ++ 41 :: post) []
+  = Ok (Some (pre ++ trim (out_of W a) ++ mid ++ trim (out_of W b) ++ post), [a; b]).
+Proof. exact two_substitutions. Qed.
+
 Check C11_refuted : ~ C11_full.
 Check C11_splices : forall W head cmd tail f,
   ~ In 36 head -> ~ In 10 tail -> ~ In 41 tail -> cmd <> [] -> ~ In 41 cmd -> ~ In 10 cmd ->
@@ -159,3 +177,5 @@ Print Assumptions C11_terminates.
 Print Assumptions C11_backquote.
 Print Assumptions C11_output_not_globbed.
 Print Assumptions C11_variant_dq.
+Print Assumptions C11_variant_backquote.
+Print Assumptions C11_two_substitutions.
